@@ -87,8 +87,10 @@ SHIPPED_EXP = {
 
 @st.composite
 def exp_ice_specs(draw, custom=True, boundary_indices=True, min_depth=200.0,
-                  max_depth=3500.0):
-    """Exponential-profile ice: shipped defaults or arbitrary n0,k,a,range."""
+                  max_depth=3500.0, buried=False):
+    """Exponential-profile ice: shipped defaults or arbitrary n0,k,a,range.
+    buried=True: a third of the custom models have a valid range whose top lies below z=0
+    (the form the lower layers of a LayeredIce take)."""
     cls = draw(st.sampled_from(sorted(SHIPPED_EXP)))
     if not custom or draw(st.integers(0, 2)) == 0:
         spec = dict(SHIPPED_EXP[cls])
@@ -105,7 +107,12 @@ def exp_ice_specs(draw, custom=True, boundary_indices=True, min_depth=200.0,
     int_range = draw(st.booleans())
     if int_range:
         depth = float(int(depth))
-    spec = dict(cls=cls, n0=n0, k=k, a=a, range=[-depth, 0.0], default=False,
+    top = 0.0
+    if buried and draw(st.integers(0, 2)) == 0:
+        top = -draw(st.sampled_from([150.0, 50.0, 300.0, 1000.0, draw(floats(1.0, 1500.0))]))
+        if int_range:
+            top = float(int(top))
+    spec = dict(cls=cls, n0=n0, k=k, a=a, range=[top - depth, top], default=False,
                 above=1.0, below=None, int_range=int_range)
     if boundary_indices:
         spec["above"] = draw(st.sampled_from([1.0, None, 1.2]))
